@@ -327,6 +327,16 @@ func AnalyzeErr(fn *ssa.Function, e ssa.Value) *ErrFlow {
 			res.Why = res.Swallows[0].Why
 		}
 	}
+	if !swallowed && fnReturnsErr && (returned || handledSomewhere) {
+		// a path that reaches a return without passing any test of the error: walk the function from
+		// the definition with the fact "e is non-nil"; every return reached must surface an error
+		if pos, ok := bypassesTests(fn, e, d); ok {
+			swallowed = true
+			res.At = pos
+			res.Why = "a path from the call reaches this return, which reports success, without passing a test of the error (the error is tested only on other paths)"
+			res.Swallows = append(res.Swallows, Swallow{Pos: pos, Why: res.Why})
+		}
+	}
 	switch {
 	case swallowed:
 		res.Verdict = ErrSwallowed
@@ -670,4 +680,65 @@ func CtxOrigin(v ssa.Value, allowedFields map[*types.Var]bool, depth int) (strin
 		}
 	}
 	return "context of unrecognised origin: " + v.String(), false
+}
+
+
+// bypassesTests: with e non-nil, is a return reachable that reports success (a nil error constant)
+// although e was neither tested on the way nor is part of what is returned? Only returns whose
+// error is the nil constant count: "unknown" results (another call's error) are left alone.
+func bypassesTests(fn *ssa.Function, e ssa.Value, d map[ssa.Value]bool) (token.Pos, bool) {
+	def, ok := e.(ssa.Instruction)
+	if !ok || def.Block() == nil {
+		return token.NoPos, false
+	}
+	if _, isPhi := e.(*ssa.Phi); isPhi {
+		return token.NoPos, false
+	}
+	b := def.Block()
+	idx := -1
+	for i, in := range b.Instrs {
+		if in == def {
+			idx = i
+		}
+	}
+	if idx < 0 {
+		return token.NoPos, false
+	}
+	// e must be tested somewhere by a plain nil test (otherwise other verdicts apply)
+	facts := map[ssa.Value]bool{e: false}
+	// a comparison with a sentinel (err == ErrNoMore…), errors.Is / errors.As: on the matching side
+	// the error has been looked at and found to be a condition, not a failure
+	h := THooks{Branch: func(iff *ssa.If, side bool, st TState) TState {
+		cond, neg := StripNot(iff.Cond)
+		switch x := cond.(type) {
+		case *ssa.BinOp:
+			if (x.Op == token.EQL || x.Op == token.NEQ) && (d[x.X] || d[x.Y]) && !isNilConst(x.X) && !isNilConst(x.Y) {
+				if (x.Op == token.EQL) == (side != neg) {
+					return handlerState(true)
+				}
+			}
+		case *ssa.Call:
+			if f := x.Call.StaticCallee(); f != nil && f.Pkg != nil && f.Pkg.Pkg.Path() == "errors" && (f.Name() == "Is" || f.Name() == "As") && side != neg {
+				for _, a := range x.Call.Args {
+					if d[a] {
+						return handlerState(true)
+					}
+				}
+			}
+		}
+		return st
+	}}
+	exits, _ := WalkTypestateFrom(b, idx+1, handlerState(false), facts, h, nil)
+	for _, ex := range exits {
+		n := len(ex.Ret.Results)
+		if n == 0 || bool(ex.St.(handlerState)) {
+			continue
+		}
+		if ex.ErrNil == 1 && !d[ex.Ret.Results[n-1]] && !d[RetErr(ex.Ret)] {
+			if k, isK := RetErr(ex.Ret).(*ssa.Const); isK && k.IsNil() {
+				return ex.Ret.Pos(), true
+			}
+		}
+	}
+	return token.NoPos, false
 }
